@@ -34,6 +34,74 @@ EXIT_EXCEPTIONS = {
 }
 
 
+def _wait_helper_rules(facts, R, wb):
+    ws = Sym(wb)
+    rmw = [term_pt(wb, i) for i, t in wb.calls() if callee_matches(t["callee"], "client::Client::remove_pending") and ws.op(t["args"][1]) == ("arg", 2, "id")]
+    errs = blocks_assigning_variant(wb, "std::result::Result", "Err")
+    R.floor("pending-removed-on-abandon", len(errs), 1, "failure rows of wait_for_response")
+    # every failed receive (timeout, disconnected) leads to the return only through remove_pending(id)
+    has = set()
+    for x in sorted(wb.live_blocks()):
+        for f in facts_at(wb, ws, facts, x):
+            if str(f["val"]) == "Err" and not f.get("derived") and is_call(f["expr"], "recv", "recv_timeout"):
+                has.add(x)
+    preds = wb.preds()
+    recv_fail = [(x, 0) for x in sorted(has) if any(p_ not in has for p_ in preds.get(x, []))]   # entry blocks of the failure regions
+    R.floor("pending-removed-on-abandon", len({p_[0] for p_ in recv_fail}) and len([1 for i, t in wb.calls() if t["callee"]["name"] in ("recv", "recv_timeout")]), 2,
+            "receive calls in wait_for_response with a failure edge")
+    w = must_cross(wb, recv_fail, return_points(wb), rmw, after_start=False)
+    R.check(w is None and bool(recv_fail), "pending-removed-on-abandon", wb.path, "failed receive removes the entry",
+            "a timed-out / disconnected receive reaches the return without remove_pending(id)", wb.span, "remove_pending(id) on every failure edge", path=w)
+    for i, j, s in errs:
+        w = must_cross(wb, [(0, 0)], [(i, j)], rmw, after_start=False)
+        R.check(w is None, "pending-removed-on-abandon", wb.path, "failure row removes the entry",
+                "a timed-out / disconnected wait returns an error but leaves its entry in the pending map", s.get("span"), "remove_pending(id) before Err", path=w)
+    # every other row returns exactly what the receiver delivered
+    rows = [(i, j, s) for i, j, s in wb.assigns() if s["place"]["l"] == 0 and not s["place"]["p"] and s["rv"].get("agg") != "adt"]
+    for i, j, s in rows:
+        v = ws.rvalue(s["rv"])
+        ok = v[0] == "field" and v[2] == "0" and v[1][0] == "variant" and v[1][2] == "Ok" and is_call(v[1][1], "recv", "recv_timeout")
+        R.check(ok, "write-failure-returns", wb.path, "success row is the received value", "wait_for_response returns %s" % render(v), s.get("span"), render(v))
+    # a receive that fails is never turned into Ok
+    oks = blocks_assigning_variant(wb, "std::result::Result", "Ok")
+    R.check(not oks, "write-failure-returns", wb.path, "no fabricated Ok", "wait_for_response builds an Ok value itself", wb.span)
+
+
+
+def _inline_wait_rules(facts, R, cb, cs, waits, rm):
+    """The same obligations when the receive sits in the call function: every failure edge of a receive reaches the return
+    only through remove_pending, and what goes on to validation is what the receiver delivered."""
+    from analysis.guards import _variants_for_discr
+    from analysis.sym import switch_alternatives
+    recv_fail = []
+    wbbs = {i for i, _ in waits}
+    for x in sorted(cb.live_blocks()):
+        t = cb.term(x)
+        if t["k"] != "switch" or t.get("on_ty") == "bool":
+            continue
+        vm = _variants_for_discr(cb, facts, t, x)
+        if not vm or "Err" not in vm.values():
+            continue
+        for e in switch_alternatives(cs, x):
+            if e[0] == "discr" and e[1][0] == "call" and len(e[1]) > 3 and e[1][3] in wbbs:
+                listed = {vm.get(v, str(v)): tb for v, tb in t["targets"]}
+                tb = listed.get("Err", t.get("otherwise"))
+                if tb is not None and not (cb.term(tb)["k"] == "unreachable" and not cb.blocks[tb]["stmts"]):
+                    recv_fail.append((tb, 0))
+    R.floor("pending-removed-on-abandon", len(set(recv_fail)), len(waits), "receive calls in call_with_body_and_timeout with a failure edge")
+    w = must_cross(cb, recv_fail, return_points(cb), rm, after_start=False)
+    R.check(w is None and bool(recv_fail) and bool(rm), "pending-removed-on-abandon", cb.path, "failed receive removes the entry",
+            "a timed-out / disconnected receive reaches the return without remove_pending(id)", cb.span, "remove_pending(id) on every failure edge", path=w)
+    vals = [(i, t) for i, t in cb.calls() if callee_matches(t["callee"], "client::Client::validate_response")]
+    R.check(len(vals) == 1, "write-failure-returns", cb.path, "one validation", "validate_response calls: %d" % len(vals), cb.span)
+    for i, t in vals:
+        from analysis.sym import split_rows
+        alts = split_rows(cs, i, len(cb.blocks[i]["stmts"]), {"use": t["args"][-1]}) or [({}, cs.op(t["args"][-1]))]
+        ok = all(any(x[0] == "call" and len(x) > 3 and x[3] in wbbs for x in walk(v)) and "as Ok" in render(v) for _, v in alts)
+        R.check(ok, "write-failure-returns", cb.path, "success row is the received value", "validate_response is given %s" % [render(v)[:120] for _, v in alts], t.get("span"),
+                "the Ok payload of the receive")
+
+
 def run(facts, R):
     has_ws = "websocket" in facts.features
     for module, loopfn, failfn, is_async in LOOPS:
@@ -125,8 +193,14 @@ def run(facts, R):
     # blocking client
     cb = facts.body("client::Client::call_with_body_and_timeout")
     cs = Sym(cb)
-    waits = [(i, t) for i, t in cb.calls() if callee_matches(t["callee"], "client::Client::wait_for_response")]
-    R.check(len(waits) == 1, "write-failure-returns", cb.path, "one wait", "found %d wait_for_response calls" % len(waits), cb.span)
+    inline_wait = "client::Client::wait_for_response" not in facts.bodies
+    if inline_wait:
+        # the receive lives in the call function itself (its helper was folded in / replaced by a side-effect-free one)
+        waits = [(i, t) for i, t in cb.calls() if t["callee"]["name"] in ("recv", "recv_timeout") and "mpsc" in t["callee"]["path"]]
+        R.check(1 <= len(waits) <= 2, "write-failure-returns", cb.path, "one wait", "found %d receive calls" % len(waits), cb.span)
+    else:
+        waits = [(i, t) for i, t in cb.calls() if callee_matches(t["callee"], "client::Client::wait_for_response")]
+        R.check(len(waits) == 1, "write-failure-returns", cb.path, "one wait", "found %d wait_for_response calls" % len(waits), cb.span)
     for i, t in waits:
         fs = facts_at(cb, cs, facts, i)
         ok = ok_fact(fs, lambda e: is_call(e, "client::Client::write_request"))
@@ -143,37 +217,11 @@ def run(facts, R):
             w = must_cross(cb, [(h, 0)], return_points(cb), rm, after_start=False)
             R.check(bool(rm) and w is None, "pending-removed-on-abandon", cb.path, "write failure removes the pending entry",
                     "a failed write returns with the waiter still registered (residue in the pending map)", t.get("span"), "remove_pending(id) crossed", path=w)
-    wb = facts.body("client::Client::wait_for_response")
-    ws = Sym(wb)
-    rmw = [term_pt(wb, i) for i, t in wb.calls() if callee_matches(t["callee"], "client::Client::remove_pending") and ws.op(t["args"][1]) == ("arg", 2, "id")]
-    errs = blocks_assigning_variant(wb, "std::result::Result", "Err")
-    R.floor("pending-removed-on-abandon", len(errs), 1, "failure rows of wait_for_response")
-    # every failed receive (timeout, disconnected) leads to the return only through remove_pending(id)
-    has = set()
-    for x in sorted(wb.live_blocks()):
-        for f in facts_at(wb, ws, facts, x):
-            if str(f["val"]) == "Err" and not f.get("derived") and is_call(f["expr"], "recv", "recv_timeout"):
-                has.add(x)
-    preds = wb.preds()
-    recv_fail = [(x, 0) for x in sorted(has) if any(p_ not in has for p_ in preds.get(x, []))]   # entry blocks of the failure regions
-    R.floor("pending-removed-on-abandon", len({p_[0] for p_ in recv_fail}) and len([1 for i, t in wb.calls() if t["callee"]["name"] in ("recv", "recv_timeout")]), 2,
-            "receive calls in wait_for_response with a failure edge")
-    w = must_cross(wb, recv_fail, return_points(wb), rmw, after_start=False)
-    R.check(w is None and bool(recv_fail), "pending-removed-on-abandon", wb.path, "failed receive removes the entry",
-            "a timed-out / disconnected receive reaches the return without remove_pending(id)", wb.span, "remove_pending(id) on every failure edge", path=w)
-    for i, j, s in errs:
-        w = must_cross(wb, [(0, 0)], [(i, j)], rmw, after_start=False)
-        R.check(w is None, "pending-removed-on-abandon", wb.path, "failure row removes the entry",
-                "a timed-out / disconnected wait returns an error but leaves its entry in the pending map", s.get("span"), "remove_pending(id) before Err", path=w)
-    # every other row returns exactly what the receiver delivered
-    rows = [(i, j, s) for i, j, s in wb.assigns() if s["place"]["l"] == 0 and not s["place"]["p"] and s["rv"].get("agg") != "adt"]
-    for i, j, s in rows:
-        v = ws.rvalue(s["rv"])
-        ok = v[0] == "field" and v[2] == "0" and v[1][0] == "variant" and v[1][2] == "Ok" and is_call(v[1][1], "recv", "recv_timeout")
-        R.check(ok, "write-failure-returns", wb.path, "success row is the received value", "wait_for_response returns %s" % render(v), s.get("span"), render(v))
-    # a receive that fails is never turned into Ok
-    oks = blocks_assigning_variant(wb, "std::result::Result", "Ok")
-    R.check(not oks, "write-failure-returns", wb.path, "no fabricated Ok", "wait_for_response builds an Ok value itself", wb.span)
+    if inline_wait:
+        _inline_wait_rules(facts, R, cb, cs, waits, rm)
+    wb = facts.body("client::Client::wait_for_response") if not inline_wait else None
+    if wb is not None:
+        _wait_helper_rules(facts, R, wb)
 
     # async + ws clients: guard discipline
     for module, fns in (("async_client", ("async_client::AsyncClient::call_with_body_and_timeout::{closure#0}",
@@ -242,6 +290,10 @@ def run(facts, R):
                         if x[0] == "local":
                             ds = [d for d in b.defs_of(x[1]) if d[0] == "assign"]
                             if ds and all("oneshot::channel().1" in render(s.rvalue(d[3])) for d in ds):
+                                return True
+                            # through temporaries assigned on several paths (rewritten combinators): every reaching combination
+                            from analysis.sym import split_rows
+                            if ds and all(all("oneshot::channel().1" in render(v) for _, v in (split_rows(s, d[1], d[2], d[3]) or [({}, ("unknown", "?"))])) for d in ds):
                                 return True
                     return False
                 from analysis.guards import fact_alternatives
@@ -333,17 +385,36 @@ def loss_signal_rule(facts, R, module, lb, ls):
     kinds = set()
     for x in sorted(lb.live_blocks()):
         for f in facts_at(lb, ls, facts, x):
-            v = str(f["val"])
-            is_dec = "decode_websocket_frame" in render(f["expr"])
-            if (v == "Err" or (v == "None" and not is_dec)) and _read_result_fact(f):
-                loss.append((x, 0))
-                kinds.add((v, "decode" if is_dec else "read"))
             txt = render(f["expr"])
             only_interrupted = (f["val"] is True and is_call(f["expr"], "eq") and "Interrupted" in txt) or \
                                (is_call(f["expr"], "kind") and (f["val"] == "Interrupted" or f["val"] == ("in", ["Interrupted"])))
             if only_interrupted and "read_message" in txt:
                 stops.append((x, 0))
                 used.add("interrupted-retry")
+    # edge level: the successor each test of the read / decode result takes for its loss variant (the arm may be shared with
+    # other paths, e.g. when the read and the decode sit in one helper whose Err exits were specialised)
+    from analysis.guards import _variants_for_discr
+    from analysis.sym import switch_alternatives
+    for x in sorted(lb.live_blocks()):
+        t = lb.term(x)
+        if t["k"] != "switch" or t.get("on_ty") == "bool":
+            continue
+        vm = _variants_for_discr(lb, facts, t, x)
+        if not vm:
+            continue
+        for e in switch_alternatives(ls, x):
+            if e[0] != "discr" or not _read_result_fact({"expr": e[1]}):
+                continue
+            is_dec = "decode_websocket_frame" in render(e[1])
+            listed = {vm.get(v, str(v)): tb for v, tb in t["targets"]}
+            for name in ("Err", "None"):
+                if name not in vm.values() or (name == "None" and is_dec):
+                    continue
+                tb = listed.get(name, t.get("otherwise"))
+                if tb is None or (lb.term(tb)["k"] == "unreachable" and not lb.blocks[tb]["stmts"]):
+                    continue
+                loss.append((tb, 0))
+                kinds.add((name, "decode" if is_dec else "read"))
     want = {"client": 1, "async_client": 1, "websocket_client": 3}[module]
     R.floor("loss-signal-ends-loop", len(kinds), want, "distinct loss signals (read Err / end of stream / undecodable frame) in " + lb.path)
     for u in sorted(used):
